@@ -10,7 +10,7 @@ TRUST = ("A committed LMDB transaction is taken as the atomic durable unit; stor
 
 CLAIMED = {
     "C03": dict(cat="exploration", ref="DESIGN.md §3 C03",
-        text="Seeded search over interleaved multi-slate histories (2-3 real wallets on a real chain, duplicated and re-ordered deliveries, cancels, restarts). After every step the DealBook's reserved-input sets of live transactions must be pairwise disjoint, no slate may own two live log entries of one direction, and a repeated protocol step must fail or leave outputs/log entries unchanged. Exploration is the right level: the property quantifies over histories, which are sampled and minimised, not enumerated.",
+        text="Seeded search over interleaved multi-slate histories (2-3 real wallets on a real chain, duplicated and re-ordered deliveries, cancels, restarts). After every step the DealBook's reserved-input sets of live transactions must be pairwise disjoint, no slate may own two live log entries of one direction, and a repeated protocol step must fail or leave outputs/log entries unchanged, and while a wallet's sent entry of a reserved deal is live every output reserved for it must still be reserved (or spent). A twin-accounts swarm funds every account of a wallet alike, so pending transactions of different accounts carry equal log ids and key indices. Exploration is the right level: the property quantifies over histories, which are sampled and minimised, not enumerated.",
         tech="deterministic simulation: seeded multi-slate histories with duplicate/reordered delivery, DealBook exclusivity + idempotence oracles"),
     "C04": dict(cat="exploration", ref="DESIGN.md §3 C04",
         text="Seeded search over long mixed histories with node-call failures injected inside refresh, restarts and multi-account use; after every successful refresh the account's recorded unspent/reserved outputs are compared with the simulator's own range-proof rewind of the real chain's UTXO set, the five balance figures with an independent partition of those values at minimum confirmations 1/2/3/10, and the confirmed log sums with their total. Histories the statement excludes are recognised by the DealBook and not judged.",
@@ -19,7 +19,7 @@ CLAIMED = {
 
 CLAIMED.update({
     "C01": dict(cat="exploration", ref="DESIGN.md §3 C01",
-        text="Seeded histories build varied output sets on real wallets and a real chain, then bursts of init_send_tx / process_invoice_tx with boundary-rich arguments run under node-call failures and failing writes. On success the saved private context (observer read) is checked against the simulator's own chain truth: every input is an unreserved, mature, sufficiently confirmed output of the source account, inputs = amount + fee + change (or the amount-includes-fee variant), fee >= the network minimum for the resulting shape; on failure nothing reserving funds may have been persisted and a panic is a violation. The argument dimension is seeded sampling (labelled partial scope); the history/failure dimensions are what simulation adds.",
+        text="Seeded histories build varied output sets on real wallets and a real chain, then bursts of init_send_tx / process_invoice_tx with boundary-rich arguments run under node-call failures and failing writes. On success the saved private context (observer read) is checked against the simulator's own chain truth: every input is an unreserved, mature, sufficiently confirmed output of the source account, inputs = amount + fee + change (or the amount-includes-fee variant), fee >= the network minimum for the resulting shape; on failure nothing reserving funds may have been persisted and a panic is a violation. A quarter of the runs contain re-organisations and scans, so the output sets also hold Reverted records (a scripted fork aimed at a confirmed incoming payment followed by a zero-confirmation send); a wallet that has not scanned since a fork or since a broadcast transaction was cancelled is judged against its own records as the embedded refresh left them, not against the node's unspent set (C04/C16/C18 own that repair). The argument dimension is seeded sampling (labelled partial scope); the history/failure dimensions are what simulation adds.",
         tech="deterministic simulation: seeded histories + boundary-argument bursts under node/storage fault injection, context-vs-chain-truth conservation oracle"),
     "C02": dict(cat="exploration", ref="DESIGN.md §3 C02",
         text="Seeded exchanges of every flow kind between real wallets; the simulator is the wire and alters a fraction of replies by one field-level mutation before finalization. Every transaction returned by finalize is validated with grin_core, compared with the payer's recorded reservation and change, the DealBook's agreed amount and fee, the recipient's recorded output and the stored copy byte for byte; after a refused finalize the pending transaction must still cancel and release its inputs.",
@@ -28,7 +28,7 @@ CLAIMED.update({
         text="Seeded histories with a focus script (refresh, create a transaction in a chosen role, drive it to a chosen stage, cancel by log id or slate id). The oracle is derived from the trace alone: the snapshot after the wallet's last successful refresh is the base as long as the chain has not moved and only the target transaction touched the wallet; after the cancel every output's status and value and every balance figure must equal the base, the target entry must be cancelled and all others untouched; cancels of confirmed, cancelled, coinbase and unknown entries must be refused without effect.",
         tech="deterministic simulation: seeded histories + trace-derived base snapshot, exact-rollback comparison"),
     "C11": dict(cat="exploration", ref="DESIGN.md §3 C11",
-        text="Seeded proof-carrying sends between three real wallets with replies altered on the proof fields; on every successful finalize the simulator re-verifies the recipient signature itself (ed25519 over amount, final kernel excess, sender address); exported proofs and single-field mutations of them are verified by sender, recipient and a third wallet while the kernel is unmined, mined and re-organised away on the real chain.",
+        text="Seeded proof-carrying sends between three real wallets with replies altered on the proof fields; on every successful finalize the simulator re-verifies the recipient signature itself (ed25519 over amount, final kernel excess, sender address); a Byzantine recipient may also state another amount and sign over it with its genuine key; proofs are exported from the account the payment was sent from (a scripted send names a source account other than the active one) and, with single-field mutations of them, are verified by sender, recipient and a third wallet while the kernel is unmined, mined and re-organised away on the real chain.",
         tech="deterministic simulation: corrupting transport on proof fields + real-chain reorgs, independent signature re-verification oracle"),
 })
 
@@ -40,7 +40,7 @@ CLAIMED.update({
         text="A Byzantine peer drives the real api::Foreign of victims in seeded mid-history states with harvested, mutated and forged slates, ids of the victim's pending (incl. late-locked) transactions, and build_coinbase requests naming existing outputs; before/after snapshots of outputs, log entries and private contexts must be unchanged except for exactly one unconfirmed output plus one receive entry per accepted slate; second deliveries must be refused. Replies that are validly counter-signed (finalize succeeds, or an unaltered honest reply) are outside the statement and not judged.",
         tech="deterministic simulation: Byzantine peer on the foreign API (harvest / mutate / forge), before-after state-diff oracle"),
     "C12": dict(cat="exploration", ref="DESIGN.md §3 C12",
-        text="Wire-tap and disk-tap oracle over seeded histories (every file incl. raw LMDB pages and every emitted slate searched for seeds, mnemonics and every private context's four secret values in six encodings), seed-file password checks against an independent PBKDF2+ChaCha20-Poly1305 implementation, crash/failing-write/truncation enumeration over change_password and recover_from_mnemonic with the requirement that some seed file still decrypts to the original seed, and per-wallet uniqueness of public nonces and excesses across slates.",
+        text="Wire-tap and disk-tap oracle over seeded histories (every file incl. raw LMDB pages and every emitted slate searched for seeds, mnemonics and every private context's four secret values in six encodings), seed-file password checks against an independent PBKDF2+ChaCha20-Poly1305 implementation, crash/failing-write/truncation enumeration over change_password and recover_from_mnemonic with the requirement that some seed file still decrypts to the original seed, per-wallet uniqueness of public nonces and excesses across slates, and one partial signature per public nonce over everything a wallet emits (a scripted recipient answers one slate twice and the sender finalizes both replies).",
         tech="deterministic simulation: disk/wire tap with observer-known secrets, independent seed-file decryption, crash-point enumeration over the password change, nonce-uniqueness history check",
         ),
     "C15": dict(cat="exploration", ref="DESIGN.md §3 C15",
@@ -56,7 +56,7 @@ CLAIMED.update({
 
 CLAIMED.update({
     "C13": dict(cat="exploration", ref="DESIGN.md §3 C13",
-        text="The real OwnerAPIHandlerV3 is driven in-process (api::Handler::post with in-memory bodies) by seeded sessions mixing a legitimate client and an attacker on the wire. A small session model tracks the current key (result of the last successful key exchange); every request the model classifies as not authenticated under it must be answered with an error, must leave the wallet directory digest, open/closed state and active account unchanged and must not echo wallet data; every authenticated call must be answered under the same key.",
+        text="The real OwnerAPIHandlerV3 is driven in-process (api::Handler::post with in-memory bodies, and for the slow-request fault a streamed body: the handler future is polled once with the request head, other requests are served completely, then the body arrives) by seeded sessions mixing a legitimate client and an attacker on the wire. A small session model tracks the current key (result of the last successful key exchange); every request the model classifies as not authenticated under it must be answered with an error, must leave the wallet directory digest, open/closed state and active account unchanged and must not echo wallet data; every authenticated call must be answered under the same key. A request whose body arrives after a re-key was made under a superseded key and must be refused.",
         tech="deterministic simulation: in-process JSON-RPC session fuzzing against a session-key reference model, state-digest and reply oracles"),
     "C14": dict(cat="exploration", ref="DESIGN.md §3 C14",
         text="Seeded histories on masked wallets with token-taking owner methods called under six token classes at arbitrary states and after close_wallet; wrong tokens must fail for every key-deriving / state-changing method and never change the directory digest; the whole explicit trace is then replayed in an unmasked twin world in the same process and step outcomes plus a canonical end-state projection must agree.",
@@ -65,22 +65,22 @@ CLAIMED.update({
         text="Seeded multi-account histories (incl. cancel-after-broadcast and reorgs on the real chain) followed by restore-from-mnemonic + scan, and by stored-state divergences injected through the backend (deleted / wrongly spent / wrongly locked / stale unconfirmed records) + scan + scan again; the result is compared with the simulator's own range-proof rewind of the UTXO set (value, height, coinbase flag, lock height, account), the restored spendable total with the chain's, and the second scan must change nothing. The scan batch size is a randomised knob so batch boundaries are crossed.",
         tech="deterministic simulation: stored-state fault injection + restore, chain-truth reference oracle, idempotence check, randomised batch-size knob"),
     "C18": dict(cat="exploration", ref="DESIGN.md §3 C18",
-        text="Seeded histories in which forks of the real chain are aimed at the block holding a payment the wallet has reported confirmed (depth, inclusion and re-adding drawn), with refreshes, scans, sends and re-mining at arbitrary points; after a scan on a chain without the kernel the entry must be reverted and its outputs unspendable and uncounted, totals must not exceed the chain's truth (orphaned coinbases), a reverted output must never be selected while off chain, and a re-mined payment must be re-confirmed by an ordinary refresh.",
+        text="Seeded histories in which forks of the real chain are aimed at the block holding a payment the wallet has reported confirmed (depth, inclusion and re-adding drawn), with refreshes, scans (in half of the scripts the node fails one call of the first scan after the fork), sends and re-mining at arbitrary points; after a scan on a chain without the kernel the entry must be reverted and its outputs unspendable and uncounted, totals must not exceed the chain's truth (orphaned coinbases), a reverted output must never be selected while off chain, and a re-mined payment must be re-confirmed by an ordinary refresh.",
         tech="deterministic simulation: real-chain reorg injection aimed at receiving blocks, revert/reconfirm oracle against chain truth"),
 })
 
 CLAIMED.update({
     "C09": dict(cat="exploration", ref="DESIGN.md §3 C09",
-        text="Valid traffic of a seeded history (every slate state, with proofs and TTLs) is hit by byte-level channel/file faults at 16 real entry points (slate JSON, armored / binary / JSON slatepacks plain and encrypted to the wallet, addresses, payment-proof JSON, both JSON-RPC listeners incl. owner requests inside an honest encrypted envelope, slatepack files) and by a Byzantine peer that age-encrypts malformed plaintexts to the wallet's own address. A genuine panic (caught at the step boundary, signature = wallet call site even when the panic fires inside a dependency), more than 512 MB of heap growth in one decode, a hang (real-time watchdog + journal) or a changed wallet directory after a rejected input is a violation. Labelled partial scope: the inputs are faults of valid encodings and Byzantine ciphertexts, not all byte strings.",
+        text="Valid traffic of a seeded history (every slate state, with proofs and TTLs) is hit by byte-level channel/file faults at 18 real entry points (slate JSON, armored / binary / JSON slatepacks plain and encrypted to the wallet, addresses, payment-proof JSON, both JSON-RPC listeners incl. the optional parameters of the foreign receive_tx, owner requests inside an honest encrypted envelope, the envelope's own nonce / body / id fields and the token field of authenticated requests, slatepack files); fault kinds include quoted and truncated pastes and pairs of independent faults and by a Byzantine peer that age-encrypts malformed plaintexts to the wallet's own address. A genuine panic (caught at the step boundary, signature = wallet call site even when the panic fires inside a dependency), more than 512 MB of heap growth in one decode, a hang (real-time watchdog + journal) or a changed wallet directory after a rejected input (LMDB records compared one by one, the kinds of record that changed go into the signature) is a violation. Labelled partial scope: the inputs are faults of valid encodings and Byzantine ciphertexts, not all byte strings.",
         tech="deterministic simulation: corrupting channel / torn file / Byzantine-ciphertext fault kinds on real traffic at every decoding entry point, panic+allocation+hang+state-digest oracles"),
     "C10": dict(cat="exploration", ref="DESIGN.md §3 C10",
-        text="Network-fault reading of the property: every slatepack a sender packs for a drawn recipient set is delivered to each recipient (must yield the slate and sender), misdelivered to every other identity in the world and to a keyless reader (must not decode), inspected raw by an eavesdropper for the slate and sender address, corrupted in transit by character edits of the armor, and tampered with by an active attacker who flips bits of the age payload and recomputes the armor checksum (must be rejected or yield the same slate). Labelled partial scope: wrong keys are the other identities of the simulated world, not all keys.",
+        text="Network-fault reading of the property: every slatepack a sender packs for a drawn recipient set is delivered to each recipient (must yield the slate and sender), misdelivered to every other identity in the world - an identity is a (wallet, derivation index) pair, two identities that hold one key are a violation by themselves - and to a keyless reader (must not decode), inspected raw by an eavesdropper for the slate and sender address, corrupted in transit by character edits of the armor, and tampered with by an active attacker who flips bits of the age payload and recomputes the armor checksum (must be rejected or yield the same slate). Labelled partial scope: wrong keys are the other identities of the simulated world, not all keys.",
         tech="deterministic simulation: misdelivery / eavesdropping / in-transit corruption and active tampering faults on slatepack traffic"),
 })
 
 CLAIMED.update({
     "C20": dict(cat="exploration", ref="DESIGN.md §3 C20",
-        text="Real threads under a cooperative baton scheduler installed behind the lock-scope hooks (every wallet-lock acquisition in libwallet and api, plus node calls made outside lock scopes, is a yield point; a thread is never descheduled while it holds the wallet mutex, so the seeded choice list alone decides the interleaving and replays exactly). For each seeded scenario (T0 = full refresh pass or scan, plus 1-3 owner/foreign operations on the same wallet, node frozen during the window) all serial orders are executed from one directory snapshot to obtain the set of serial outcomes under a canonical projection, then uniform-random and PCT-style interleavings must each end in that set; a hang is reported as deadlock. In tier-2 scenarios the node event (a block confirming, spending or re-organising records) is applied inside the concurrent window at a scheduler-chosen point; there the oracle is completed effects (what an operation that returned Ok recorded is never replaced by data the background pass read before it ran). The real Updater::run loop is not adopted: T0 is one update_wallet_state pass or one scan.",
+        text="Real threads under a cooperative baton scheduler installed behind the lock-scope hooks (every wallet-lock acquisition in libwallet and api, plus node calls made outside lock scopes, is a yield point; a thread is never descheduled while it holds the wallet mutex, so the seeded choice list alone decides the interleaving and replays exactly). For each seeded scenario (T0 = full refresh pass or scan, plus 1-3 owner/foreign operations on the same wallet, node frozen during the window) all serial orders are executed from one directory snapshot to obtain the set of serial outcomes under a canonical projection, then uniform-random and PCT-style interleavings must each end in that set; a hang is reported as deadlock. In tier-2 scenarios the node event (a block confirming, spending or re-organising records) is applied inside the concurrent window at a scheduler-chosen point; there the oracle is completed effects (what an operation that returned Ok recorded is never replaced by data the background pass read before it ran). In a share of the scenarios T0 is the wallet's own updater thread: start_updater is called for real, the thread it spawns is adopted by the scheduler at its first lock section (the sleep between passes goes through the sleep seam and advances the virtual clock), it runs until the operations have finished, stop_updater ends it; the reference set is then every order of the operations with an updater pass or none before each of them and a final pass.",
         tech="deterministic simulation: cooperative baton scheduler over real threads at wallet-lock granularity, seeded random + PCT schedules, serial-outcome-set (serializability) oracle"),
 })
 
